@@ -351,7 +351,7 @@ impl SimScenario {
                 let rec = ws[3..].contains(&"rec");
                 script.borrow_mut().record = rec;
                 script.borrow_mut().canon = ws[3..].contains(&"canon");
-                if ws[3..].contains(&"py") || ws[3..].contains(&"pyd") || ws[3..].contains(&"pys") || ws[3..].contains(&"pyr") {
+                if ws[3..].contains(&"py") || ws[3..].contains(&"pyd") || ws[3..].contains(&"pys") || ws[3..].contains(&"pyr") || ws[3..].contains(&"pyo") || ws[3..].contains(&"pyu") {
                     self.py_procs.insert(ws[1].to_string());
                     // the Python twin gets the rules known so far (py scenarios list the rules before the processes)
                     let toks: Vec<Vec<String>> = self
@@ -366,6 +366,10 @@ impl SimScenario {
                         "ScriptProcShared"
                     } else if ws[3..].contains(&"pyr") {
                         "ScriptProcRandom"
+                    } else if ws[3..].contains(&"pyo") {
+                        "ScriptProcOrder"
+                    } else if ws[3..].contains(&"pyu") {
+                        "ScriptProcUnpicklable"
                     } else {
                         "ScriptProcDefault"
                     };
@@ -428,6 +432,17 @@ impl SimScenario {
             }
             "until_local" => {
                 let r = self.sys.step_until_local_message(ws[1]).map_err(|e| e.to_string());
+                let ret = match r {
+                    Ok(ms) => format!("Ok{}", show_msgs(&ms)),
+                    Err(_) => "Err".to_string(),
+                };
+                vec![self.obs(&ret, false)]
+            }
+            "until_local_timeout" => {
+                let r = self
+                    .sys
+                    .step_until_local_message_timeout(ws[1], fof(ws[2]))
+                    .map_err(|e| e.to_string());
                 let ret = match r {
                     Ok(ms) => format!("Ok{}", show_msgs(&ms)),
                     Err(_) => "Err".to_string(),
